@@ -32,8 +32,8 @@ with open(os.path.join(V, "seeded", "RESULTS.md"), "w") as f:
     f.write("Every change applied to the /repo HEAD of its time, passed the repository's own suite (tools/seed_audit.sh) and comes with a\n")
     f.write("demonstration that exits 0 on the unchanged tree and 1 with the change. Verdicts are from `tools/seed_matrix.sh quick`\n")
     f.write("(check of the change's property, quick tier, VERIF_SEED=0, scratch worktree via VF_REPO_DIR) at the final HEAD; each\n")
-    f.write("meta.json records the audit and check lines. At the final HEAD three changes are neutralised by later fix: commits\n")
-    f.write("(C04_2, C08_3, C10_4: their demonstrations pass with the patch), and three (C09_2, C10_3, C14_3: the same lost\n")
+    f.write("meta.json records the audit and check lines. At the final HEAD four changes are neutralised by later fix: commits\n")
+    f.write("(C04_2, C08_3, C10_4, C16_10: their demonstrations pass with the patch; C02_4 is caught by another witness), and three (C09_2, C10_3, C14_3: the same lost\n")
     f.write("try/finally in sub_defaults_context) now also make 5 of the repository's own tests fail, which they did not when written.\n\n")
     f.write(f"{caught} of {len(rows)} caught in the quick tier.\n\n")
     f.write("| id | change | verdict | first signatures reported | patch |\n|---|---|---|---|---|\n")
